@@ -208,6 +208,7 @@ pub fn explore_c11(rep: &Report, finish: bool) -> i32 {
     let b_mate1 = AtomicU64::new(0);
     let b_avoid = AtomicU64::new(0);
     let b_changed = AtomicU64::new(0);
+    let b_history = AtomicU64::new(0);
     {
         let idx = AtomicUsize::new(0);
         let stride = if quick { 5 } else { 1 };
@@ -278,6 +279,30 @@ pub fn explore_c11(rep: &Report, finish: bool) -> i32 {
                             }
                         }
                     }
+                    // the same root reached again through a game: blunder, quiet reply, both moves taken back. Every
+                    // position of the cycle has then occurred once before (the root twice); a move into a position
+                    // that occurred ONCE is not a draw, so the blunder is still a blunder
+                    if avoidable && some_walk && !mate1 {
+                        if let Some(cmd) = history_variant(pos, &legal, &walks_into) {
+                            let hroot = root_from_command(&cmd, &h);
+                            let hrun = run_search(&hroot.board, &hroot.table, None, d);
+                            b_history.fetch_add(1, Ordering::Relaxed);
+                            nodes.fetch_add(hrun.queries, Ordering::Relaxed);
+                            let hinfos: Vec<Info> = hrun.infos.iter().filter_map(|l| parse_info(l).ok()).collect();
+                            if hrun.panicked.is_none() && hinfos.len() == hrun.sent.len() {
+                                let last2 = hinfos.iter().rposition(|x| x.depth == 2);
+                                for j in 0..hinfos.len() {
+                                    if Some(j) == last2 || hinfos[j].depth >= 3 {
+                                        if let Some(m) = move_of_successor(pos, &hrun.sent[j]) {
+                                            if walks_into(&pos.make(&m)) {
+                                                rep.fail("C11", "walks-into-mate-in-one/with-game-history", format!("'{}': in iteration {} the search hands back {} after which the opponent mates at once, although it can be avoided and iteration 2 has finished", cmd, hinfos[j].depth, m.uci()), J::obj().set("kind", J::s("e2-search")).set("position_command", J::s(&cmd)).set("position_fen", J::s(&pos.fen())).set("expiry_index", J::s("never")).set("stop_after_iteration", J::Int(d as i128)).set("line", J::s(&hinfos[j].raw)));
+                                            }
+                                        }
+                                    }
+                                }
+                            }
+                        }
+                    }
                     // mate announcements of one move are checked against the rules directly
                     for (j, info) in infos.iter().enumerate() {
                         if let (Some(nm), Some(m)) = (info.mate, move_of_successor(pos, &run.sent[j])) {
@@ -305,10 +330,34 @@ pub fn explore_c11(rep: &Report, finish: bool) -> i32 {
         sweep_roots.push(Pos::from_fen(f).unwrap());
     }
     let sweep_points = AtomicU64::new(0);
+    let full_runs = AtomicU64::new(0);
     for pos in &sweep_roots {
         let root = fresh_root(pos, &h);
         let pieces = pos.b.iter().filter(|x| **x != 0).count();
         let d: u8 = if pieces > 10 { 2 } else if quick { 3 } else { 4 };
+        // the whole search, no depth stop: with a mate in one every iteration is trivial, so all 99 of them run;
+        // the search must come to its end by itself, and every line of it is judged
+        {
+            let cap: u64 = 400_000;
+            let full = run_search(&root.board, &root.table, Some(cap), 0);
+            nodes.fetch_add(full.queries, Ordering::Relaxed);
+            let facts = RootFacts { legal: pos.legal_moves(), successors: Vec::new() };
+            check_infos(rep, &root, &facts, &full, Some(cap), 0, &infos_n);
+            full_runs.fetch_add(1, Ordering::Relaxed);
+            if full.panicked.is_none() {
+                let deepest = full.infos.iter().filter_map(|l| parse_info(l).ok()).map(|i| i.depth).max().unwrap_or(0);
+                if full.queries >= cap {
+                    rep.fail("C18", "search-does-not-end-at-its-depth-limit", format!("{}: the search was still running after {} clock consultations (deepest iteration reported: {}, {} info lines)", root.name, cap, deepest, full.infos.len()), J::obj().set("kind", J::s("e2-search")).set("position_command", J::s(&root.command)).set("position_fen", J::s(&pos.fen())).set("expiry_index", J::Int(cap as i128)).set("stop_after_iteration", J::Int(0)));
+                }
+                if let Some(last) = full.sent.last() {
+                    if let Some(m) = move_of_successor(pos, last) {
+                        if !pos.make(&m).is_checkmate() {
+                            rep.fail("C11", "mate-in-one-not-played/full-search", format!("{}: after the whole search the move held is {} which does not mate", root.name, m.uci()), J::obj().set("kind", J::s("e2-search")).set("position_command", J::s(&root.command)).set("position_fen", J::s(&pos.fen())).set("expiry_index", J::Int(cap as i128)).set("stop_after_iteration", J::Int(0)));
+                        }
+                    }
+                }
+            }
+        }
         let r1 = run_search(&root.board, &root.table, None, 1);
         let k1 = r1.queries; // consultations until iteration 1 has finished
         let rd = run_search(&root.board, &root.table, None, d);
@@ -349,9 +398,11 @@ pub fn explore_c11(rep: &Report, finish: bool) -> i32 {
         });
     }
     rep.add("mate_in_one_roots_swept_over_every_expiry_point", sweep_roots.len() as u64);
+    rep.add("searches_run_to_their_own_end_all_99_iterations", full_runs.load(Ordering::Relaxed));
     rep.add("expiry_points_on_mate_in_one_roots", sweep_points.load(Ordering::Relaxed));
     rep.add("back_rank_family_positions_searched", b_searched.load(Ordering::Relaxed));
     rep.add("back_rank_family_roots_with_mate_in_one", b_mate1.load(Ordering::Relaxed));
+    rep.add("back_rank_family_roots_searched_again_with_a_game_history_leading_back_to_them", b_history.load(Ordering::Relaxed));
     rep.add("back_rank_family_roots_where_a_blunder_into_mate_is_possible_and_avoidable", b_avoid.load(Ordering::Relaxed));
     rep.add("back_rank_family_roots_where_iteration_1_prefers_the_blunder", b_changed.load(Ordering::Relaxed));
     rep.add("positions_searched", searched.load(Ordering::Relaxed) + b_searched.load(Ordering::Relaxed));
@@ -374,6 +425,36 @@ pub fn explore_c11(rep: &Report, finish: bool) -> i32 {
         rep.add("family_transitions", nodes.load(Ordering::Relaxed));
         0
     }
+}
+
+/// `position fen <root> moves m x m' x'`: a blunder m (walks into mate in one), a quiet reply x, both taken back
+fn history_variant(pos: &Pos, legal: &[Mv], walks_into: &dyn Fn(&Pos) -> bool) -> Option<String> {
+    let quiet_reversible = |p: &Pos, m: &Mv| rules::kind_of(p.b[m.from as usize]) != rules::P && !p.is_capture(m) && !p.is_castle(m) && m.promo == 0;
+    for m in legal {
+        if !quiet_reversible(pos, m) || !walks_into(&pos.make(m)) {
+            continue;
+        }
+        let p1 = pos.make(m);
+        for x in p1.legal_moves() {
+            if !quiet_reversible(&p1, &x) || p1.make(&x).is_checkmate() {
+                continue;
+            }
+            let p2 = p1.make(&x);
+            let mb = Mv { from: m.to, to: m.from, promo: 0 };
+            if !p2.legal_moves().contains(&mb) {
+                continue;
+            }
+            let p3 = p2.make(&mb);
+            let xb = Mv { from: x.to, to: x.from, promo: 0 };
+            if !p3.legal_moves().contains(&xb) {
+                continue;
+            }
+            if p3.make(&xb) == *pos {
+                return Some(format!("position fen {} moves {} {} {} {}", pos.fen(), m.uci(), x.uci(), mb.uci(), xb.uci()));
+            }
+        }
+    }
+    None
 }
 
 /// kings behind three pawns, a rook each on the back rank, a loose black piece as bait
@@ -420,6 +501,36 @@ fn c12_roots(rep: &Report, h: &ZobristHasher) -> Vec<Root> {
         for (i, p) in t.positions.iter().enumerate() {
             if !t.children[i].is_empty() && i % stride == 0 {
                 roots.push(fresh_root(p, h));
+            }
+        }
+    }
+    // K+P vs K with the pawn one or two steps from promotion, both colours, both sides to move, complete:
+    // promotions (and the choice between them: stalemate tricks) inside the three-ply horizon
+    for color in [rules::WHITE, rules::BLACK] {
+        let ranks: [i8; 2] = if color == rules::WHITE { [5, 6] } else { [2, 1] };
+        for wk in 0..64u8 {
+            for bk in 0..64u8 {
+                if wk == bk {
+                    continue;
+                }
+                for &r in &ranks {
+                    for f in 0..8i8 {
+                        let psq = rules::sq_at(f, r).unwrap();
+                        if psq == wk || psq == bk {
+                            continue;
+                        }
+                        let mut p = Pos::empty();
+                        p.b[wk as usize] = rules::pc(rules::WHITE, rules::K);
+                        p.b[bk as usize] = rules::pc(rules::BLACK, rules::K);
+                        p.b[psq as usize] = rules::pc(color, rules::P);
+                        for stm in [rules::WHITE, rules::BLACK] {
+                            p.stm = stm;
+                            if p.is_legal_position() && !p.legal_moves().is_empty() {
+                                roots.push(fresh_root(&p, h));
+                            }
+                        }
+                    }
+                }
             }
         }
     }
@@ -594,6 +705,6 @@ pub fn run_c12(rep: &Report) -> i32 {
     if skipped.load(Ordering::Relaxed) > 0 {
         rep.note(format!("{} positions skipped because the unpruned reference exceeded {} nodes (not counted as explored)", skipped.load(Ordering::Relaxed), node_cap));
     }
-    let rule = "every root of: KQK/KRK complete families on a stride, all move paths of length <= 2/3 from the low-material S1 roots (history preloaded through the real position command), the C07 roots, constructed repetition histories; iterations 1..3 (1..2 above 10 pieces); each reported (move, score) and each iteration's final score compared with plain negamax";
+    let rule = "every root of: KQK/KRK complete families on a stride, the complete K+P v K family with the pawn one or two steps from promotion (both colours, both sides to move), all move paths of length <= 2/3 from the low-material S1 roots (history preloaded through the real position command), the C07 roots, constructed repetition histories; iterations 1..3 (1..2 above 10 pieces); each reported (move, score) and each iteration's final score compared with plain negamax";
     rep.finish(searched.load(Ordering::Relaxed), ref_nodes.load(Ordering::Relaxed), lines.load(Ordering::Relaxed), skipped.load(Ordering::Relaxed) == 0, rule)
 }
